@@ -292,10 +292,11 @@ example : ∀ x ∈ [((2 : Int), (1 : Int)), (1, 1), (2, 0)], ∀ y ∈ [((2 : I
 def expectedShape : PonyVerif.Gen.QueryShape.Shape :=
   { getStop := .num 2, getMultipleAbove := 1, existsStop := .num 1, firstStop := .num 1, firstOrdersUnordered := true,
     firstWithoutDistinct := true, randomStop := .name "limit", randomOrder := "random()", nullSumIsZero := true,
-    orderByPrepends := true, deleteSubqueryWhere := true, deleteSubqueryGroupBy := true, deleteSubqueryHaving := true }
+    orderByPrepends := true, deleteSubqueryWhere := true, deleteSubqueryGroupBy := true, deleteSubqueryHaving := true,
+    deleteShortFormGuarded := true, subqueryMarksOwner := true }
 
 /-- the source still has the shape the models mirror (breaks when `Query.get/exists/first/random/_aggregate`,
-    `order_by_*` or `construct_delete_sql_ast` change) -/
+    `order_by_*`, `construct_delete_sql_ast` or the `used_from_subquery` marking of `resolve_name` change) -/
 theorem C24_bridge_query_shape : PonyVerif.Gen.QueryShape.shape = expectedShape := by decide
 
 /-- the prefix lengths of the model are the ones in the source: with the regenerated bounds, `get` on a prefix of that
